@@ -461,7 +461,11 @@ fn check(prop: &str, tier: &str, seed: u64) -> i32 {
     for (si, item) in plan.items.iter().enumerate() {
         for i in 0..item.runs {
             let s = mix(mix(seed, 0x5CE0 + si as u64), i);
-            let extra = if item.enumerate { i } else { 0 };
+            let extra = match (item.enumerate, item.sample_space) {
+                (true, _) => i,
+                (false, Some(n)) => mix(s, 0xE87A) % n,
+                _ => 0,
+            };
             jobs.push((item.scn, s, extra));
         }
     }
